@@ -1209,7 +1209,10 @@ impl FdlActiveStation {
         self.state
             .transition_pass_token(DoGap::Yes, PassTokenAttempt::First);
 
-        PollDone::waiting_for_delay()
+        // Immediately evaluate PassToken state because the bus is free for immediate
+        // transmission.  Waiting for the next poll would needlessly add to our reaction time,
+        // which the previous token holder only tolerates for one slot time.
+        self.do_pass_token(now, phy)
     }
 
     fn do_await_data_response<PHY: ProfibusPhy>(
